@@ -366,6 +366,20 @@ FastForward
 // hashgraph from a Block and associated Frame.
 func (c *core) fastForward(block *hg.Block, frame *hg.Frame) error {
 	c.logger.Debug("Fast Forward", frame.Round)
+
+	for _, p := range frame.Peers {
+		if p == nil {
+			return fmt.Errorf("Frame contains a nil Peer")
+		}
+	}
+	for _, ps := range frame.PeerSets {
+		for _, p := range ps {
+			if p == nil {
+				return fmt.Errorf("Frame PeerSets contain a nil Peer")
+			}
+		}
+	}
+
 	peerSet := peers.NewPeerSet(frame.Peers)
 
 	// Check Block Signatures
